@@ -39,6 +39,15 @@ pub enum Event {
     FoldEnd {
         fold_id: u32,
     },
+    /// at the end of a stream fold: iterations recorded in the previous/current data that no
+    /// iteration of this run has claimed (entries and number of trace states they span)
+    FoldUnclaimedLore {
+        fold_id: u32,
+        prev_entries: usize,
+        prev_states: u64,
+        current_entries: usize,
+        current_states: u64,
+    },
 }
 
 thread_local! {
